@@ -81,7 +81,7 @@ def run(rep, tier, seed, replay=None):
     if not replay:
         H.block_k(rep, 'C06', binp, seed + 660, 3600 if escalate else 900, p_absolute=300, p_hidden=0)
         # ---- K4: the flex resumption (Model/FlexAlg.v) vs the event trace of compute_flexbox_layout (another seed than C05)
-        FA.flexalg_k(rep, 'C06', binp, seed + 6060, 1500 if escalate else 400)
+        FA.flexalg_k(rep, 'C06', binp, seed + 6060, 1500 if escalate else 400, payload_is_broken=False)
     for t in THEOREMS:
         rep.cov['samples'].append({'theorem': t})
     # ---- search
